@@ -44,15 +44,17 @@ def generate(tier, rng):
                           "thr": None, "scale": ["rank", 0]})
         else:
             tmax = rng.choice([DEN // 4, DEN, 3 * DEN])
-            g = iogen.rand_dtg(rng, tmax, kw_share=kw, sliver=[1, 5, 11, 50] if rng.random() < 0.3 else None)
+            g = iogen.rand_dtg(rng, tmax, kw_share=kw, sliver=[1, 5, 11, 50] if rng.random() < 0.5 else None)
+            if rng.random() < 0.25:
+                g = iogen.shift_dtg(g, rng.choice([5, 1000, DEN // 8]))       # a span that does not start at 0
             mn = mx = None
             u = rng.random()
             if u < 0.12:
-                mn = rng.choice([0, -DEN, 5])
+                mn = rng.choice([0, 0, -DEN, 5, g["xmin"]])
             if 0.08 < u < 0.25:
-                mx = rng.choice([tmax, tmax + DEN, tmax - 1])
+                mx = rng.choice([g["xmax"], g["xmax"] + DEN, g["xmax"] - 1])
             cases.append({"op": "save", "fam": "B", "g": g, "vals": None, "blanks": rng.random() < 0.7, "mn": mn, "mx": mx,
-                          "thr": rng.choice([None, 1e-8]), "scale": ["dyadic", K]})
+                          "thr": rng.choice([None, 1e-8, 1e-8]), "scale": ["dyadic", K]})
     return cases
 
 
@@ -75,9 +77,9 @@ def run(case):
         before = c01._snap(tg)
         for fmt in FORMATS:
             try:
-                out[fmt] = {"text": textgrid_io.getTextgridAsStr(_tgToDictionary(tg), fmt, case["blanks"],
-                                                                 None if case["mn"] is None else tof(case["mn"]),
-                                                                 None if case["mx"] is None else tof(case["mx"]), case["thr"])}
+                out[fmt] = {"text": iogen.save_via(tg, fmt, case["blanks"],
+                                                   None if case["mn"] is None else tof(case["mn"]),
+                                                   None if case["mx"] is None else tof(case["mx"]), case["thr"])}
             except Exception as e:  # noqa
                 out[fmt] = {"err": core.err_kind(e)}
         # the same object written again after a save with the other blank-filling setting: same text, object untouched
